@@ -33,8 +33,23 @@ class _Text:
             raise Unsupported(f"text split by {sep!r}")
         return list(self.lines)
 
+    def splitlines(self, keepends=False):
+        """str.splitlines under the stated assumption that '\\n' is the only line boundary
+        character in the text: like split('\\n') but a final empty piece is dropped and, with
+        keepends, every piece but the last carries its newline."""
+        ls = list(self.lines)
+        if len(ls) > 1 or True:
+            if bool(ls[-1].length == 0):
+                ls = ls[:-1]
+                last_has_nl = True
+            else:
+                last_has_nl = False
+        if keepends:
+            ls = [_Line(l.length + 1) if (i < len(ls) - 1 or last_has_nl) else l for i, l in enumerate(ls)]
+        return ls
+
     def __getattr__(self, name):
-        raise Unsupported(f"opaque source text: .{name} is not modelled (only split('\\n'))")
+        raise Unsupported(f"opaque source text: .{name} is not modelled (only split('\\n') / splitlines)")
 
 
 def _len(x):
@@ -82,7 +97,8 @@ def _texts_from(model, k):
 
 @family("C20.map", props=["C20"], functions=[AST + "::SourceMapping.__init__", AST + "::SourceMapping.GetLineFromOffset", AST + "::SourceMapping.GetLineStartOffset"],
         assumptions=["the text is opaque: split('\\n') yields k lines of symbolic lengths >= 0 (str.split trusted); the number of lines k is enumerated 1..5, line lengths are unbounded symbols; the real bisect runs on the symbolic offsets",
-                     "len shim bound in nsl.ast globals for opaque lines"])
+                     "len shim bound in nsl.ast globals for opaque lines",
+                     "if the code calls splitlines instead of split: modelled under the assumption that '\\n' is the only line-boundary character of the text"])
 def c20_map(R):
     """For every text of 1-5 lines with arbitrary line lengths and every offset in [0, |text|]: GetLineFromOffset(o) is the number of
     newlines before o, i.e. the r with start(r) <= o < start(r+1), and GetLineStartOffset(r) = sum of (len+1) of the lines before r."""
